@@ -343,7 +343,11 @@ def storage(idx: ProgramIndex, cls: ClassInfo, rep: Report, helpers: Dict[str, S
     callables = {fwd.params[1 + i] for i in NON_TENSOR_INPUTS.get(cls.name, {}) if "callable" in NON_TENSOR_INPUTS[cls.name][i]}
     scalars = {fwd.params[1 + i] for i in NON_TENSOR_INPUTS.get(cls.name, {}) if "callable" not in NON_TENSOR_INPUTS[cls.name][i]}
     for fi, role in ((fwd, "forward"), (bwd, "backward")):
-        probs, npaths = interp_function(fi, role, callables | scalars, helpers)
+        # in backward, tensors kept on ctx (saved tensors and plain attributes) outlive the call: a graph may be differentiated
+        # more than once (retain_graph, jacobian, two losses), so they are object-owned state that must not be written in place
+        probs, npaths = interp_function(fi, role, callables | scalars, helpers, track_state=(role == "backward"))
+        probs = [p_.replace("a tensor owned by the object (a parameter, buffer, cache or training data): later calls see the modified value",
+                            "a tensor kept on ctx: a second backward pass through the same graph (retain_graph, jacobian, two losses) sees the modified value") for p_ in probs]
         rep.add("C19-2", "%s.%s" % (inst, role), fi.where, not probs and npaths > 0,
                 "on all %d path(s): finalised values hold the latest version of their storage, no stale reads, no write to inputs%s" % (npaths, " or saved tensors" if role == "backward" else "") if not probs else "; ".join(probs[:3]),
                 {"paths": npaths})
